@@ -128,6 +128,11 @@ func (pa *peerAddrs) PopIfExpired(now time.Time) (*expiringAddr, bool) {
 
 func (pa *peerAddrs) Update(a *expiringAddr) {
 	if a.heapIndex == -1 {
+		// Connected addresses are kept out of the expiry heap. Once such an
+		// address gets a finite TTL it must enter the heap, or gc never removes it.
+		if !a.IsConnected() {
+			heap.Push(pa, a)
+		}
 		return
 	}
 	if a.IsConnected() {
